@@ -1,3 +1,4 @@
+mod asyncworld;
 mod build;
 mod corpus;
 mod ctx;
